@@ -21,7 +21,7 @@
 From Coq Require Import List ZArith Bool String Ascii.
 From PySMT.core Require Import Syntax Sem SmtStd.
 From PySMT.models Require Import TypeChecker SmtLex SmtParser SmtPrinter RoundTrip.
-From PySMT.proofs Require Import SmtPrinter_proofs SmtParser_proofs.
+From PySMT.proofs Require Import SmtPrinter_proofs SmtParser_proofs Reader_proofs RoundTrip_ind ParseAgrees_proofs.
 Import ListNotations.
 Open Scope string_scope.
 
@@ -39,10 +39,40 @@ Proof. exact lex_agrees_example. Qed.
 
 Theorem C08_parse_agrees_printed_partial : forall Sg I s t t',
   wfp Sg [] t -> wf_interp I ->
-  reads_back s (print_tree t) t' -> t' = t ->
+  SmtParser_proofs.reads_back s (print_tree t) t' -> t' = t ->
   std_eval Sg I (print_tree t) = Some (eval I t').
 Proof. exact parse_agrees_printed_partial. Qed.
 Print Assumptions C08_parse_agrees_printed_partial.
+
+(* ---- the reader against std_eval DIRECTLY, by induction on the s-expression (any depth).
+   C08_machine_simple: the stack machine does what the recursive reading [elab] does, for every
+   s-expression built from atoms and applications, whatever the stack, the state and the tokens that
+   follow.  C08_parse_agrees_core_partial: on the Core fragment [core] (true, false, declared Bool
+   constants, and / or with >= 2 arguments, =>, not over a non-negation, ite and = on Booleans),
+   whenever that reading succeeds the machine returns its result, a term of sort Bool that denotes
+   what core/SmtStd.v says the text denotes.  Outside the proved fragment: arithmetic and every
+   operator that goes through fix_real (needs the sorted induction: std_eval is untyped and the
+   parser may coerce Int constants), let and quantifiers (the handlers are not yet in the machine
+   lemma), define-fun.  Those stay carried by the correspondence and harness/c08_ref.py. *)
+Theorem C08_machine_simple : forall x, simpleb x = true ->
+  forall fuel' stk s i s' rest,
+    elab x s = ROk i s' -> toks s = (flatten x ++ rest)%list ->
+    get_expr (cost x + fuel') stk s = after fuel' stk i s' /\ toks s' = rest.
+Proof. exact machine_simple. Qed.
+Print Assumptions C08_machine_simple.
+
+Theorem C08_parse_agrees_core_partial : forall Sg D,
+  alookup "true" D = Some (ITerm TTrue) -> alookup "false" D = Some (ITerm TFalse) ->
+  forall x, core Sg D x ->
+  forall s i s' rest k, inv D s -> toks s = (flatten x ++ rest)%list -> elab x s = ROk i s' ->
+    get_expr (cost x + k) [] s = ROk (Some i) s' /\ toks s' = rest /\ inv D s' /\
+    exists t, i = ITerm t /\ tc t = Some TBool /\
+              forall I, wf_interp I -> std_eval Sg I x = Some (eval I t).
+Proof. exact parse_agrees_core_partial. Qed.
+Print Assumptions C08_parse_agrees_core_partial.
+
+Theorem C08_parse_agrees_core_hypotheses_satisfiable : core ex_sig ex_D ex_sexp.
+Proof. exact ex_core. Qed.
 
 (* simultaneous let-bindings: repaired in parser.py; the former counter-example and the whole
    family of two-binding lets over x, y, true, false are read as the standard says *)
